@@ -64,6 +64,18 @@ mod build_incl {
 	}
 }
 
+/// src/main.rs of the binary crate declares this next to its command line; src/insert_mappings.rs refers to it.
+#[allow(dead_code)]
+#[derive(Debug, Default, Copy, Clone)]
+pub enum PropagationDirection { None, #[default] Both, Up, Down }
+/// src/insert_mappings.rs pasted into a module of the harness, so that its private functions (propagate_change, the node
+/// level functions, get_id_*) can be driven; the wrappers below only convert values, install recording closures and call them.
+#[allow(dead_code, deprecated, unused)]
+mod insert_incl {
+	include!("/repo/src/insert_mappings.rs");
+	include!("insert_wrappers.rs");
+}
+
 use std::io::{BufRead, BufReader, BufWriter, Write};
 use std::panic::{catch_unwind, AssertUnwindSafe};
 use serde_json::{json, Value};
